@@ -220,6 +220,67 @@ def pktsize_handling(func: ast.AST, name: str) -> Dict[str, bool]:
             'adjust': dec_line is not None}
 
 
+def _strip_cast(e: ast.AST) -> ast.AST:
+    """`cast(T, x)` is the identity at run time"""
+    while isinstance(e, ast.Call) and ast.unparse(e.func) == 'cast' and len(e.args) == 2:
+        e = e.args[1]
+    return e
+
+
+def text_codec_items(cls: ast.AST, write: ast.AST, setenc: ast.AST, deliver: ast.AST) -> Dict[str, Any]:
+    """which codec objects the text layer goes through: read from `write`, `set_encoding`, `_deliver_data`"""
+    def assigned(func: ast.AST, name: str, under: str) -> List[ast.AST]:
+        """values assigned to `name` in the body of `if <under>:` (not its else) inside func"""
+        res: List[ast.AST] = []
+        for n in ast.walk(func):
+            if isinstance(n, ast.If) and ast.unparse(n.test) == under:
+                for b in n.body:
+                    for m in ast.walk(b):
+                        tgt = None
+                        if isinstance(m, ast.Assign) and len(m.targets) == 1:
+                            tgt = m.targets[0]
+                        elif isinstance(m, ast.AnnAssign) and m.value is not None:
+                            tgt = m.target
+                        if tgt is not None and ast.unparse(tgt) == name:
+                            res.append(m.value)          # type: ignore
+        return res
+    enc_vals = assigned(write, 'encoded_data', 'self._encoding')
+    enc_call = ast.unparse(enc_vals[0]) if len(enc_vals) == 1 else '<none>'
+    uses_encoder = False
+    if len(enc_vals) == 1 and isinstance(enc_vals[0], ast.Call):
+        c = enc_vals[0]
+        uses_encoder = ast.unparse(c.func) == 'self._encoder.encode' and len(c.args) == 1 and not c.keywords and \
+            ast.unparse(_strip_cast(c.args[0])) == 'data'
+    dec_vals = assigned(deliver, 'decoded_data', 'self._encoding')
+    dec_call = ast.unparse(dec_vals[0]) if len(dec_vals) == 1 else '<none>'
+    uses_decoder = False
+    if len(dec_vals) == 1:
+        c = _strip_cast(dec_vals[0])
+        uses_decoder = isinstance(c, ast.Call) and ast.unparse(c.func) == 'self._decoder.decode' and \
+            len(c.args) == 1 and not c.keywords and ast.unparse(c.args[0]) == 'data'
+    e_new = [ast.unparse(v) for v in assigned(setenc, 'self._encoder', 'encoding')]
+    d_new = [ast.unparse(v) for v in assigned(setenc, 'self._decoder', 'encoding')]
+    # `if not data: return` comes before the encoder is reached
+    empty_line = None
+    for n in ast.walk(write):
+        if isinstance(n, ast.If) and ast.unparse(n.test) == 'not data' and len(n.body) == 1 and \
+                isinstance(n.body[0], ast.Return) and n.body[0].value is None:
+            empty_line = n.lineno
+    enc_line = enc_vals[0].lineno if len(enc_vals) == 1 else None
+    # no other place encodes / decodes channel text
+    other_sites = sorted(f'{f.name}: {ast.unparse(n)}' for f in cls.body                # type: ignore
+                         if isinstance(f, (ast.FunctionDef, ast.AsyncFunctionDef))
+                         for n in ast.walk(f)
+                         if isinstance(n, ast.Call) and isinstance(n.func, ast.Attribute) and
+                         n.func.attr in ('encode', 'decode') and
+                         ast.unparse(n.func.value) in ('self._encoder', 'self._decoder'))
+    return {'enc_call': enc_call, 'dec_call': dec_call, 'uses_encoder': uses_encoder, 'uses_decoder': uses_decoder,
+            'encoder_incremental': e_new == ['codecs.getincrementalencoder(encoding)(errors)'],
+            'decoder_incremental': d_new == ['codecs.getincrementaldecoder(encoding)(errors)'],
+            'empty_write_skips': empty_line is not None and enc_line is not None and empty_line < enc_line,
+            'codec_calls': other_sites}
+
+
 # what each item looked like when the model was written (used only when an item can no longer be translated)
 BASELINE = {
     'flush': (
@@ -323,6 +384,20 @@ def generate(prop: str) -> Dict[str, Any]:
     sites = decrement_site(cls)
     out += '/-- the methods of `SSHChannel` in which `_recv_window` is decremented -/\n'
     out += 'def recvWindowDecrementedIn : List String := ' + T.lean_list([T.lean_str(s) for s in sites]) + '\n\n'
+    tc = text_codec_items(cls, T.find_def(tree, 'SSHChannel.write'), T.find_def(tree, 'SSHChannel.set_encoding'), deliver)
+    out += '/-- the text layer: what `write` assigns to `encoded_data` and `_deliver_data` to `decoded_data` on a channel\n'
+    out += '    with an encoding; whether these are `self._encoder.encode(data)` / `self._decoder.decode(data)` (the ONE\n'
+    out += '    codec object of the channel, `cast` stripped); whether `set_encoding` creates them with\n'
+    out += '    `codecs.getincrementalencoder(encoding)(errors)` / `codecs.getincrementaldecoder(encoding)(errors)`;\n'
+    out += '    whether `if not data: return` precedes the encoder; every call of the two codec objects in the class -/\n'
+    out += f'def textEncodeCall : String := {T.lean_str(tc["enc_call"])}\n'
+    out += f'def textDecodeCall : String := {T.lean_str(tc["dec_call"])}\n'
+    out += f'def writeUsesChannelEncoder : Bool := {T.lean_bool(tc["uses_encoder"])}\n'
+    out += f'def deliverUsesChannelDecoder : Bool := {T.lean_bool(tc["uses_decoder"])}\n'
+    out += f'def encoderIsIncremental : Bool := {T.lean_bool(tc["encoder_incremental"])}\n'
+    out += f'def decoderIsIncremental : Bool := {T.lean_bool(tc["decoder_incremental"])}\n'
+    out += f'def emptyWriteSkipsEncoder : Bool := {T.lean_bool(tc["empty_write_skips"])}\n'
+    out += 'def codecCallSites : List String := ' + T.lean_list([T.lean_str(x) for x in tc['codec_calls']]) + '\n\n'
     try:
         ho = pktsize_handling(popen, '_process_channel_open')
         hc = pktsize_handling(pconf, '_process_channel_open_confirmation')
@@ -338,7 +413,7 @@ def generate(prop: str) -> Dict[str, Any]:
     out += f'end AsyncsshModel.Gen.{prop}\n'
     changed = vlib.write_if_changed(vlib.module_path(f'AsyncsshModel.Gen.{prop}'), out)
     return {'gen_file': f'Gen/{prop}.lean', 'changed': changed, 'decrement_sites': sites,
-            'zero_pktsize_check': {'open': ho, 'confirm': hc}, 'fallbacks': fallbacks, '_py': py}
+            'zero_pktsize_check': {'open': ho, 'confirm': hc}, 'text_codec': tc, 'fallbacks': fallbacks, '_py': py}
 
 
 def self_test(prop: str, info: Dict[str, Any], rng: Any) -> List[str]:
